@@ -450,6 +450,23 @@ def fam_conv(rng, n, tier, mode="exact", grads=False):
         g = (batch, depth, rows, cols, count, fr, fc, sr, sc_)
         cases.append(Case(conv_case(rng, *g, mode=mode, grads=grads), ("cvr",) + tuple(map(str, g)) + (grads,),
                           ["random", "batch%d" % len(batch)], mode))
+    # several convolutions in one program: the same image again, a reshaped view of the same buffer with
+    # other rows / cols / depth, the same filters on another image - each call stands on its own
+    views = [([1, 4, 6], [1, 6, 4]), ([1, 4, 6], [2, 3, 4]), ([2, 2, 6], [1, 4, 6]), ([1, 3, 4], [1, 4, 3]), ([1, 1, 2, 6], [1, 3, 4])]
+    for (d1, d2) in views:
+        for trk in (False, True):
+            for (fr, fc, sr, sc_) in ((2, 2, 1, 1), (1, 2, 1, 2), (2, 1, 2, 1)):
+                dep1, dep2 = d1[-3], d2[-3]
+                L = ["new x %s %s" % (dims_s(d1), vals_s(gen_vals(rng, prod(d1), mode), mode))]
+                L.append("new f1 %s %s" % (dims_s([1, dep1, fr, fc]), vals_s(gen_vals(rng, dep1 * fr * fc, mode), mode)))
+                L.append("new f2 %s %s" % (dims_s([2, dep2, fr, fc]), vals_s(gen_vals(rng, 2 * dep2 * fr * fc, mode), mode)))
+                if trk:
+                    L += ["tracked x", "tracked f1", "tracked f2"]
+                L += ["conv r1 x f1 %d %d" % (sr, sc_), "reshape y x %s" % dims_s(d2), "conv r2 y f2 %d %d" % (sr, sc_),
+                      "conv r3 x f1 %d %d" % (sr, sc_), "clone z y", "conv r4 z f2 %d %d" % (sr, sc_)]
+                if trk and grads:
+                    L += ["backward r2 -", "grad x", "grad f2", "backward r3 -", "grad x", "grad f1"]
+                cases.append(Case(L, ("cvseq", tuple(d1), tuple(d2), trk, fr, fc, sr, sc_, grads), ["sequence", "views"], mode))
     if not grads:
         # refusals: filter larger than the image, too few dimensions, zero stride
         cases.append(Case(conv_case(rng, [], 1, 2, 2, 1, 3, 1, 1, 1, mode), ("cvbad", 1), ["refuse"], mode))
@@ -1224,7 +1241,12 @@ def fam_train(rng, n, tier, mode="exact", forward_only=False):
             L.append("fwd out%d M x%d" % (it, it))
             if xtracked:
                 L.append("flags x%d" % it)
-            L.append("bwd M y%d" % it)
+            if rng.random() < 0.12:
+                # a target equal to the current output, element for element (soft labels copied from the
+                # prediction): mse is then 0 with zero gradients, cross-entropy is not
+                L.append("bwd M out%d" % it)
+            else:
+                L.append("bwd M y%d" % it)
             L.append("params M")
             if xtracked:
                 L += ["grad x%d" % it, "flags x%d" % it]
@@ -1611,6 +1633,30 @@ def fam_bcast_add(rng, n, tier, mode="exact"):
         op = rng.choice(["add", "sub"])
         cases.append(Case(ewise_case(rng, a, b, mode, [op], True, uses), ("ba", op, tuple(a), tuple(b), uses),
                           [op, "uses%d" % uses], mode))
+    # one array reached through contributions of its own dimensions AND of the same length but higher
+    # rank ([3] next to [1,3] / [1,1,3]): whatever arrives first, the stored gradient has the array's dimensions
+    for s_ in (all_shapes(2, 3) if tier != "thorough" else all_shapes(3, 3)):
+        for k in (1, 2):
+            t_ = [1] * k + s_
+            for first in ("same", "higher"):
+                for passthru in ("add", "reshape", "mmadd"):
+                    L = ["new b %s %s" % (dims_s(s_), vals_s(gen_vals(rng, prod(s_), mode), mode)), "tracked b",
+                         "new u %s %s" % (dims_s(s_), vals_s(gen_vals(rng, prod(s_), mode), mode)),
+                         "new x %s %s" % (dims_s(t_), vals_s(gen_vals(rng, prod(t_), mode), mode))]
+                    if passthru == "add":
+                        L.append("add t1 b u")
+                    elif passthru == "reshape":
+                        L.append("reshape t1 b %s" % dims_s(s_))
+                    else:
+                        if len(s_) != 1:
+                            continue
+                        # b as the additive term of a product: the delta is handed through unchanged
+                        L += ["new m1 1,2 %s" % vals_s([1, 2], mode), "new m2 2,%d %s" % (s_[0], vals_s(gen_vals(rng, 2 * s_[0], mode), mode)),
+                              "matmul t1 m1 N m2 N b"]
+                    L.append("mul t2 b x")
+                    L.append("add r t1 t2" if first == "same" else "add r t2 t1")
+                    L += ["backward r -", "grad b", "mul q r r", "backward q -", "grad b"]
+                    cases.append(Case(L, ("bamix", tuple(s_), k, first, passthru), ["mixed-rank", passthru], mode))
     for _ in range(n):
         a, b = rand_compat_pair(rng, 5 if tier == "thorough" else 4, 4)
         uses = rng.choice([1, 2, 3, 4])
